@@ -390,7 +390,25 @@ func (t *translator) function(pkg string, typ *ast.FuncType, recv *ast.FieldList
 	// taking a tracked field
 	ast.Inspect(body, func(n ast.Node) bool {
 		as, ok := n.(*ast.AssignStmt)
-		if !ok || as.Tok != token.DEFINE || len(as.Lhs) != len(as.Rhs) {
+		if !ok || as.Tok != token.DEFINE {
+			return true
+		}
+		// rc, ok := rm.(rowChecker)  /  rc := rm.(rowChecker)  /  r2 := rm : the new name denotes the same
+		// relation manager / file store, calls on it are calls on the tracked value
+		if len(as.Rhs) == 1 && len(as.Lhs) >= 1 {
+			if id, ok := as.Lhs[0].(*ast.Ident); ok && id.Name != "_" {
+				src := as.Rhs[0]
+				if ta, ok := src.(*ast.TypeAssertExpr); ok {
+					src = ta.X
+				}
+				if k := t.kindOf(src, env{tracked: tracked}); k != kNone {
+					if _, isCall := src.(*ast.CallExpr); !isCall {
+						tracked[id.Name] = k
+					}
+				}
+			}
+		}
+		if len(as.Lhs) != len(as.Rhs) {
 			return true
 		}
 		for i, r := range as.Rhs {
